@@ -74,6 +74,11 @@ func (c10) Gen(seed uint64, run int, tier string) *Plan {
 			}
 			p.Actions = append(p.Actions, Action{Kind: "register", D: id, C: r.Intn(1 << 30)})
 			agents++
+		case x < 30:
+			// two registrations for one new agent id arrive at the same time with different keys (a
+			// duplicated first request of an agent that re-keyed, or somebody else using the id): the
+			// handler of the first is stalled at a drawn step while the second is served
+			p.Actions = append(p.Actions, Action{Kind: "race-register", D: 0x01000000 + r.Intn(0x7e000000), C: r.Intn(1 << 30), A: r.Intn(220)})
 		case x < 40:
 			p.Actions = append(p.Actions, Action{Kind: "sleep", B: r.Intn(agents), D: r.Intn(5000)})
 		case x < 42:
@@ -322,7 +327,32 @@ func (c *c10Run) play(record bool) (states []c10State, stepsAt []uint64) {
 			c.demons = append(c.demons, d)
 			w.Send(world.AgentReq{Port: d.Port, URI: "/", Body: d.InitPacket()})
 			ok = c.settle()
-		case "sleep":
+		case "race-register":
+			cr := simrt.NewRand(uint64(a.C))
+			id := uint32(a.D)
+			if w.TS.AgentExist(int(id)) {
+				break
+			}
+			d1 := &world.Demon{ID: id, Key: randBytes(cr, 32), IV: randBytes(cr, 16), Meta: sentMeta(cr)}
+			d2 := &world.Demon{ID: id, Key: randBytes(cr, 32), IV: randBytes(cr, 16), Meta: sentMeta(cr)}
+			port := w.Cfg.HTTP[0].PortBind
+			w.Send(world.AgentReq{Port: port, URI: "/", Body: d1.InitPacket()})
+			if ok = c.steps(uint64(a.A)); !ok {
+				break
+			}
+			stalled := w.Sim.StallRunnable()
+			w.Send(world.AgentReq{Port: port, URI: "/", Body: d2.InitPacket()})
+			// (not a quiescent state of the history: the first registration is still in flight)
+			rec := c.record
+			c.record = false
+			ok = c.settle()
+			c.record = rec
+			if !ok {
+				break
+			}
+			w.Sim.Release(stalled)
+			ok = c.settle()
+			c.res.Probe("raced-registrations-with-different-keys")
 			if len(c.demons) == 0 {
 				continue
 			}
